@@ -30,8 +30,9 @@ THEOREMS = [("Arc.Storage.Props", t) for t in (
 TIE_NAME = ("C08 correspondence (storage.LocalBackend.validatePath/sanitizePath/Write/WriteReader/AppendReader, "
             "raft.ValidateManifestPath, edgesync.validateSyncPath/validateSpokeID/NamespacedPath vs Arc.Storage.Model) / Params_Storage")
 LOCAL_GO = "internal/storage/local.go"
+LAST_METHODS = []
 MAX_POINTS = 14          # crash targets tried per operation beyond its chunk count (the last one must complete)
-FULL_OBS = 1500          # keys for which sanitizePath / validators / NamespacedPath are observed as well
+FULL_OBS = 1000          # keys for which sanitizePath / validators / NamespacedPath are observed as well
 
 # ---------------------------------------------------------------------------------------
 # crash points: instrumentation of the CURRENT local.go, generated on every run.
@@ -46,15 +47,23 @@ CALLS = ("os.CreateTemp", "os.OpenFile", "os.Rename", "os.Remove", "io.Copy")
 
 
 def instrument_local_go():
+    """Every function of local.go (helpers included, so a call moved into a helper such as an
+    `openStaging` wrapper is still seen): a verifPoint("<func>:<call>") line before each line that
+    performs one of CALLS or a Close; the three writers also get an entry point and a point before
+    their final `return nil`.  Points only fire when a crash target is armed."""
     src = open(os.path.join(vlib.REPO, LOCAL_GO)).read()
-    for fn in WRITERS:
-        m = re.search(r"^func \(b \*LocalBackend\) %s\(.*?\{\n" % fn, src, re.M)
-        if not m:
-            raise vlib.TieBroken("func (b *LocalBackend) %s not found in %s" % (fn, LOCAL_GO))
-        end = src.find("\nfunc ", m.end())
-        end = len(src) if end < 0 else end
+    heads = list(re.finditer(r"^func (?:\([^)]*\) )?(\w+)\(.*\{\n", src, re.M))
+    if not heads:
+        raise vlib.TieBroken("no function found in " + LOCAL_GO)
+    pieces, pos = [], 0
+    seen_all, writers_seen = {}, {}
+    for i, m in enumerate(heads):
+        fn = m.group(1)
+        end = heads[i + 1].start() if i + 1 < len(heads) else len(src)
         body = src[m.end():end]
-        out, seen = ['\tverifPoint("%s:enter")' % fn], {}
+        out, seen = [], {}
+        if fn in WRITERS:
+            out.append('\tverifPoint("%s:enter")' % fn)
         for line in body.split("\n"):
             st = line.strip()
             indent = line[:len(line) - len(line.lstrip("\t"))]
@@ -66,10 +75,11 @@ def instrument_local_go():
                         break
                 if call is None and re.search(r"\b\w+\.Close\(\)", st):
                     call = "Close"
-            if line == "\treturn nil":
+            if fn in WRITERS and line == "\treturn nil":
                 call = "return"
             if call:
                 seen[call] = seen.get(call, 0) + 1
+                seen_all[call] = seen_all.get(call, 0) + 1
                 out.append('%sverifPoint("%s:%s")' % (indent, fn, call))
             out.append(line)
         body2 = "\n".join(out)
@@ -77,10 +87,18 @@ def instrument_local_go():
             body2, n = re.subn(r"(\w+)\.Write\(data\)", r"verifChunkedWrite(\1, data)", body2)
             if n != 1:
                 raise vlib.TieBroken("Write: the single `<file>.Write(data)` call was not found in %s (found %d)" % (LOCAL_GO, n))
-        if not seen.get("Rename") or not (seen.get("CreateTemp") or seen.get("OpenFile")) or not seen.get("return"):
-            raise vlib.TieBroken("%s in %s no longer opens/creates a staging file, renames it and returns nil (calls found: %s)" % (fn, LOCAL_GO, seen))
-        src = src[:m.end()] + body2 + src[end:]
-    return vlib.gen_file(os.path.join("C08", LOCAL_GO), src)
+        if fn in WRITERS:
+            writers_seen[fn] = seen
+            if not seen.get("Rename") or not seen.get("return"):
+                raise vlib.TieBroken("%s in %s no longer renames a staging file and returns nil (calls found: %s)" % (fn, LOCAL_GO, seen))
+        pieces.append(src[pos:m.end()] + body2)
+        pos = end
+    for fn in WRITERS:
+        if fn not in writers_seen:
+            raise vlib.TieBroken("func (b *LocalBackend) %s not found in %s" % (fn, LOCAL_GO))
+    if not (seen_all.get("CreateTemp") and seen_all.get("OpenFile")):
+        raise vlib.TieBroken("%s no longer calls os.CreateTemp and os.OpenFile anywhere (calls found: %s)" % (LOCAL_GO, seen_all))
+    return vlib.gen_file(os.path.join("C08", LOCAL_GO), "".join(pieces) + src[pos:])
 
 
 def cby(b):
@@ -188,6 +206,48 @@ def gen_root_aware_key(rng):
     return b"/".join(segs)
 
 
+# ---- method cases: which file does every key-taking method touch? -------------------------------
+O_ = b"\x01O\x01"            # replaced by the harness with the absolute path of a directory OUTSIDE the root
+METHOD_KEYS = [O_ + b"/victim", O_ + b"/victim/", O_ + b"/x/y.parquet", O_, b"victim", b"./victim", b"../victim", b"../../out/victim",
+               b"sub/victim", b"d/f", b"/d/f", b"db/m/2026/f.parquet", DD + b"/victim", DD + b"/out/victim", DD + b"/" + DD + b"/victim",
+               DD + b"/root/f", DD + b"/rootX/f", b"victim\x00", b"vic\x00tim", b"", b"/", b"..", b".", b"a..b", b"//victim", b"/" + O_[0:0] + b"victim",
+               b"../cwd/sub/victim", b"cwd/sub/victim", b"out/victim"]
+
+
+def gen_method_cases(rng, n):
+    cases = []
+    keys = list(METHOD_KEYS)
+    while len(keys) < n:
+        r = rng.random()
+        if r < 0.3:
+            keys.append(rng.choice(METHOD_KEYS))
+        elif r < 0.5:
+            keys.append(rng.choice([O_, b"", b"..", DD, b"."]) + b"/" + b"/".join(rng.choice([b"victim", b"out", b"cwd", b"sub", b"root", b"..", DD, b"f"]) for _ in range(rng.randint(1, 3))))
+        else:
+            keys.append(gen_key(rng))
+    for i, k in enumerate(keys[:n]):
+        fin = rng.choice([None, None, b"F1", b"", b"final-content"])
+        part = rng.choice([None, None, b"P0", b"part-content"])
+        if i < len(METHOD_KEYS):            # every fixed key once with the final file absent (the .part fallbacks run) ...
+            fin, part = None, rng.choice([None, b"P0"])
+        cases.append({"key": hx(k), "in_final": None if fin is None else hx(fin), "in_part": None if part is None else hx(part)})
+    return cases
+
+
+def mcase_to_coq(c):
+    root = bytes.fromhex(c["root"])
+    def ob(x):
+        return chopt(unh(x))
+    return ("(Build_mcase %s %s %s %s %s %s %s %s %s %s %s %s %s %s %s %s %s %s %s %s %s %s)" % (
+        clist([ch(x) for x in root.split(b"/") if x]), ch(bytes.fromhex(c["key"])),
+        ob(c["in_final"] if c["plantable"] else None), ob(c["in_part"] if c["plantable"] else None),
+        ob(c["read"]), ob(c["read_to"]), ob(c["read_at"]),
+        "None" if c["stat"] is None else "(Some %s)" % cz(c["stat"]), "None" if c["exists"] is None else "(Some %s)" % cbool(c["exists"]),
+        cbool(c["del_ok"]), ob(c["del_final"]), ob(c["del_part"]), cbool(c["write_ok"]), ob(c["after_write"]),
+        cbool(c["wr_ok"]), ob(c["after_wr"]), cbool(c["app_ok"]), ob(c["after_app"]), ob(c["after_app_part"]),
+        cbool(c["list_ok"]), cbool(bool(c["leaked"])), cbool(bool(c["outside_changed"]))))
+
+
 def key_nontrivial(k):
     try:
         k.decode("ascii")
@@ -285,15 +345,21 @@ def lcase_to_coq(c):
 HEADER = "From Coq Require Import List NArith ZArith Bool String.\nFrom Arc Require Import Storage.Model Storage.Hex.\nImport ListNotations.\nOpen Scope string_scope.\n"
 
 
-def run_impl(keys, libs, crash, tag):
-    """keys: [(root_idx, bytes)], libs: [(a, b)], crash: [json dict] -> observations"""
-    cases = {"keys": [{"root": r, "key": hx(k)} for r, k in keys], "lib": [{"a": hx(a), "b": hx(b)} for a, b in libs], "crash": crash}
+def run_impl(keys, libs, crash, tag, methods=None):
+    """keys: [(root_idx, bytes)], libs: [(a, b)], crash: [json dict], methods: [json dict] -> observations
+    (the method observations are left in LAST_METHODS)"""
+    global LAST_METHODS
+    cases = {"keys": [{"root": r, "key": hx(k)} for r, k in keys], "lib": [{"a": hx(a), "b": hx(b)} for a, b in libs], "crash": crash,
+             "methods": methods or []}
     out = vlib.run_go_harness("C08", "./internal/storage/", "^TestVerifStorage$",
                               {"internal/storage/zz_storage_verif_test.go": "harness/storage/storage_verif_test.go",
                                LOCAL_GO: instrument_local_go()},
                               cases, tag=tag)
-    if len(out["keys"]) != len(keys):
+    if len(out["keys"]) != len(keys) or len(out.get("methods") or []) != len(methods or []):
         raise vlib.TieBroken("C08 harness returned a different number of results")
+    LAST_METHODS = out.get("methods") or []
+    for o, m in zip(LAST_METHODS, methods or []):
+        o["key_template"] = m["key"]                 # with the 0x01 O 0x01 placeholder, for replays
     keys = [(r, bytes.fromhex(o["key"])) for (r, _), o in zip(keys, out["keys"])]      # placeholders resolved by the harness
     vals = []
     nval = min(len(keys), FULL_OBS)
@@ -348,15 +414,21 @@ def root_header(roots):
     return h
 
 
-def evaluate(kc, lc, wc, roots, name):
+def evaluate(kc, lc, wc, roots, name, mc=None):
     r = {}
+    if mc:
+        # the model comparison needs the planted files: skip it for accepted keys that resolve to a directory (e.g. the root itself)
+        full = [i for i, c in enumerate(mc) if c["plantable"] or c["resolved"] is None]
+        x = coq_check("C08", HEADER, "mcase", [mcase_to_coq(mc[i]) for i in full], {"magree": "mcase_agrees"}, name=name + "_m")
+        r["magree"] = [full[i] for i in x["magree"]]
+        r.update(coq_check("C08", HEADER, "mcase", [mcase_to_coq(c) for c in mc], {"moracle": "mcase_oracle"}, name=name + "_mo"))
     if kc:
         r.update(coq_check("C08", root_header(roots), "kcase", [kcase_to_coq(c) for c in kc], {"kagree": "kcase_agrees", "koracle": "kcase_oracle"}, name=name + "_k"))
     if lc:
         r.update(coq_check("C08", HEADER, "lcase", [lcase_to_coq(c) for c in lc], {"lagree": "lcase_agrees"}, name=name + "_l"))
     if wc:
         r.update(coq_check("C08", HEADER, "wcase", [wcase_to_coq(c) for c in wc], {"wagree": "wcase_agrees", "woracle": "wcase_oracle"}, name=name + "_w"))
-    for k in ("kagree", "koracle", "lagree", "wagree", "woracle"):
+    for k in ("kagree", "koracle", "lagree", "wagree", "woracle", "magree", "moracle"):
         r.setdefault(k, [])
     return r
 
@@ -400,8 +472,8 @@ def run(res, tier, seed):
     ]
 
     scale = float(os.environ.get("VERIF_SCALE") or "1")          # for development runs on a busy machine
-    nkeys = int((5000 if tier == "quick" else 60000) * scale)
-    nlib = int((600 if tier == "quick" else 8000) * scale)
+    nkeys = int((3000 if tier == "quick" else 60000) * scale)
+    nlib = int((400 if tier == "quick" else 8000) * scale)
     nops = int((150 if tier == "quick" else 1500) * scale)
     t1 = time.time()
     keys = []
@@ -424,6 +496,10 @@ def run(res, tier, seed):
     # and a reader that fails after exactly appendSize bytes
     for clean, size in ((True, 5), (True, 6), (True, 4), (False, 5), (True, 0)):
         ops.insert(0, {"op": "append_reader", "old_final": None, "old_part": b"PREFIX", "chunks": [b"ta", b"il!"], "clean": clean, "size": size})
+    # an interrupted WriteReader left N bytes in the staging file; a fresh complete WriteReader of FEWER bytes
+    # must truncate it: the promoted file is exactly the new bytes
+    ops.insert(0, {"op": "write_reader", "old_final": None, "old_part": b"LEFTOVER-FROM-AN-INTERRUPTED-LONGER-TRANSFER", "chunks": [b"short", b"er"], "clean": True, "size": 7})
+    ops.insert(0, {"op": "write_reader", "old_final": b"OLD", "old_part": b"0123456789", "chunks": [b"abc"], "clean": True, "size": 3})
     # WriteReader / Write replacing an existing file, reader failing after all bytes
     ops.insert(0, {"op": "write_reader", "old_final": b"OLD", "old_part": b"stale", "chunks": [b"new", b"data"], "clean": False, "size": 7})
     ops.insert(0, {"op": "write_reader", "old_final": b"OLD", "old_part": None, "chunks": [b"new", b"data"], "clean": True, "size": 7})
@@ -431,25 +507,28 @@ def run(res, tier, seed):
     # witness of C08_write_reader_ignores_size: clean EOF after 4 of 10 announced bytes
     ops.insert(0, {"op": "write_reader", "old_final": None, "old_part": None, "chunks": [b"\x01\x02\x03\x04"], "clean": True, "size": 10})
     batch, bidx = crash_batch(ops)
-    kc, lc, cout, roots = run_impl(keys, libs, batch, tier)
+    mcases = gen_method_cases(rng, int((300 if tier == "quick" else 4000) * scale))
+    kc, lc, cout, roots = run_impl(keys, libs, batch, tier, methods=mcases)
+    mc = LAST_METHODS
     wc = crash_collect(ops, bidx, cout)
     res.stage("impl_harness", t1)
 
     t2 = time.time()
-    r = evaluate(kc, lc, wc, roots, "Cases_" + tier)
+    r = evaluate(kc, lc, wc, roots, "Cases_" + tier, mc=mc)
     res.stage("coq_eval", t2)
 
     nt_keys = {(c["root"], c["key"]) for c in kc if key_nontrivial(c["key"])}
     nt_crash = {json.dumps([c[k] for k in ("op", "old_final", "old_part", "chunks", "clean", "size", "passed")]) for c in wc
                 if c["crashed"] and not c["point"].endswith((":enter", ":return"))}
-    res.cov["evaluations"] = len(kc) + len(lc) + len(wc)
-    res.cov["distinct_nontrivial"] = len(nt_keys) + len(nt_crash)
+    nt_methods = {(c["key"], c["in_final"], c["in_part"]) for c in mc if c["canaries"] > 0 and key_nontrivial(bytes.fromhex(c["key"]))}
+    res.cov["evaluations"] = len(kc) + len(lc) + len(wc) + len(mc)
+    res.cov["distinct_nontrivial"] = len(nt_keys) + len(nt_crash) + len(nt_methods)
     res.cov["rule"] = ("keys: fixed edge list x 3 roots (one is '/') + generated hierarchical / traversal / malformed / raw-byte keys; non-trivial = key contains "
                        "'..', NUL, backslash, a leading '/' or a non-ASCII byte, distinct by (root, key).  crash: generated Write/WriteReader/AppendReader operations "
                        "(old final / old .part present or not, 0-4 chunks, clean or failing reader, matching or wrong size) run at EVERY crash point; non-trivial = stopped "
                        "strictly inside the operation, distinct by (operation, crash point).  lib: filepath.Clean/Rel operands (counted in evaluations only)")
-    res.cov["model_vs_impl_disagreements"] = len(r["kagree"]) + len(r["lagree"]) + len(r["wagree"])
-    res.cov["oracle_failures"] = len(r["koracle"]) + len(r["woracle"])
+    res.cov["model_vs_impl_disagreements"] = len(r["kagree"]) + len(r["lagree"]) + len(r["wagree"]) + len(r["magree"])
+    res.cov["oracle_failures"] = len(r["koracle"]) + len(r["woracle"]) + len(r["moracle"])
     acc = sum(1 for c in kc if c["obs"] is not None)
     res.cov["histogram"] = {
         "keys": len(kc), "keys_nontrivial": len(nt_keys), "keys_accepted": acc, "keys_rejected": len(kc) - acc,
@@ -457,6 +536,8 @@ def run(res, tier, seed):
         "keys_with_validators_observed": sum(1 for c in kc if c["manifest"] is not None),
         "keys_manifest_ok": sum(1 for c in kc if c["manifest"]), "keys_sync_ok": sum(1 for c in kc if c["sync"]), "keys_spoke_ok": sum(1 for c in kc if c["spoke"]),
         "per_root": {roots[i].decode("utf-8", "replace"): sum(1 for c in kc if c["root"] == i) for i in range(len(roots))},
+        "method_cases": len(mc), "method_cases_with_canaries": sum(1 for c in mc if c["canaries"] > 0), "method_cases_rejected_key": sum(1 for c in mc if c["resolved"] is None),
+        "canaries_planted": sum(c["canaries"] for c in mc),
         "lib_cases": len(lc), "crash_runs": len(wc), "crash_inside": len(nt_crash),
         "crash_by_op": {o: sum(1 for c in wc if c["op"] == o) for o in ("write", "write_reader", "append_reader")},
         "crash_points": {p: sum(1 for c in wc if c.get("point") == p) for p in sorted({c.get("point", "") for c in wc})},
@@ -482,6 +563,13 @@ def run(res, tier, seed):
                       {"kind": "escape", "case": {"root": c["root"], "key_hex": hx(small)}, "resolved": shown})
         reported = True
         break
+    for idx in r["moracle"]:
+        c = mc[idx]
+        res.violation("a LocalBackend method touched a file outside the storage root (%s)" % ", ".join((c["leaked"] or []) + ["changed " + x for x in (c["outside_changed"] or [])][:3] + ([] if c["list_ok"] else ["List"])),
+                      {"kind": "method-escape", "method_case": {"key": c["key_template"], "in_final": c["in_final"], "in_part": c["in_part"]},
+                       "key_text": bytes.fromhex(c["key"]).decode("utf-8", "backslashreplace"), "observed": c})
+        reported = True
+        break
     for idx in r["woracle"]:
         c = wc[idx]
         res.violation("a crash inside %s left neither the old nor the complete intended content at the final path" % c["op"],
@@ -491,8 +579,13 @@ def run(res, tier, seed):
     if failed and not reported:
         res.violation("proof obligation(s) no longer check: " + "; ".join(x for _, x in failed),
                       {"kind": "obligation-failed", "theorems": [t for t, _ in failed], "detail": [x for _, x in failed]}, no_input=True, suffix="obligation")
-    if (r["kagree"] or r["lagree"] or r["wagree"]) and not reported:
-        if r["kagree"]:
+    if (r["kagree"] or r["lagree"] or r["wagree"] or r["magree"]) and not reported:
+        if r["magree"]:
+            c = mc[r["magree"][0]]
+            res.violation("model and implementation disagree on what a LocalBackend method does with a key", {"kind": "correspondence", "correspondence": TIE_NAME,
+                          "method_case": {"key": c["key_template"], "in_final": c["in_final"], "in_part": c["in_part"]}, "observed": c,
+                          "disagreeing_cases": len(r["magree"]), "oracle_fails_on_impl": False}, no_input=True, suffix="corr")
+        elif r["kagree"]:
             c = kc[r["kagree"][0]]
 
             def dis(root, key):
@@ -520,6 +613,12 @@ def run(res, tier, seed):
 
 def replay(res, path):
     obj = json.load(open(path))
+    if obj.get("method_case"):
+        run_impl([], [], [], "replay", methods=[obj["method_case"]])
+        mc = LAST_METHODS
+        r = evaluate([], [], [], [], "Replay", mc=mc)
+        print("observed:", mc[0], "| model disagrees:", bool(r["magree"]), "| touches outside the root:", bool(r["moracle"]))
+        return 1 if (r["magree"] or r["moracle"]) else 0
     c = obj.get("case")
     if not c:
         print("replay file names no concrete case:", obj.get("summary"))
